@@ -49,7 +49,7 @@ FNSEL = {"Run": "FRun", "RunV": "FRunV", "RunWith": "FRunWith", "RunWithV": "FRu
 VERBOSE = "MAGEFILE_VERBOSE"
 VERBOSE_VALUES = ["1", "1", "true", "0", "", "t", "TRUE", "yes", "false"]
 TRUE_SPELLINGS = ("1", "t", "T", "TRUE", "true", "True")          # strconv.ParseBool
-SCRIPTS = ["--exit=3", "--exit=1", "--exit=3", "--quiet", "--exit=0", "--exit=42"]   # argvchild: scripted failing / silent calls
+SCRIPTS = ["--exit=3", "--exit=1", "--exit=255", "--quiet", "--exit=0", "--exit=42", "--kill", "--kill", "--exit=2"]   # argvchild: scripted failing / silent / signal-killed calls
 PLAIN = [w for w in WORDS if "$" not in w]
 SLOW_REF = "${Z}"                # Z is never set: expands to nothing, slowly when repeated
 PAR_BOUND_MS = 15000             # how long all children of one concurrent case may take to be alive together
@@ -72,6 +72,8 @@ def gen_slice(rng, arrays, want_spare=False, nonempty=False):
     if rng.random() < 0.5:
         cap = n - off
     ln = rng.randint(0, cap)
+    if cap >= 15 and rng.random() < 0.6:
+        ln = rng.randint(max(0, cap - 3), cap)           # long argument lists stay long
     if want_spare and cap >= 1:
         ln = rng.randint(0, cap - 1)
     elif rng.random() < 0.3:
@@ -84,9 +86,12 @@ def gen_slice(rng, arrays, want_spare=False, nonempty=False):
 def gen_arrays(rng, scripts=False):
     arrays = []
     for _ in range(rng.choice([1, 2, 2, 3, 3, 4, 5])):
-        n = rng.choice([0, 1, 2, 2, 3, 3, 4, 5, 6])
+        # lengths 0..41: short lists mostly, a quarter beyond any plausible cut-off (15..18, 31..34, 40, 41)
+        n = rng.choice([0, 1, 2, 2, 3, 3, 4, 5, 6, 6, 9, 12]) if rng.random() < 0.75 else rng.choice([15, 16, 17, 17, 18, 20, 24, 31, 32, 33, 34, 40, 41])
         words = PLAIN if rng.random() < 0.4 else WORDS      # arrays without any $ reference are frequent
-        arrays.append([rng.choice(SCRIPTS) if scripts and rng.random() < 0.09 else rng.choice(words) for _ in range(n)])
+        # how often a cell scripts the child: failing calls must be as frequent as succeeding ones, for every length
+        dens = rng.choice([0.0, 0.09, 0.2]) if n <= 12 else rng.choice([0.0, 0.0, 0.03, 0.06])
+        arrays.append([rng.choice(SCRIPTS) if scripts and rng.random() < dens else rng.choice(words) for _ in range(n)])
     if all(len(a) < 2 for a in arrays):
         arrays.append([rng.choice(WORDS) for _ in range(3)])
     return arrays
@@ -393,6 +398,8 @@ def child_behaviour(argv, exe):
         m = re.fullmatch(r"--exit=(\d+)", a, flags=re.ASCII)
         if m and int(m.group(1)) <= 255:
             code = int(m.group(1))
+    if "--kill" in args:
+        code = 1          # started, printed, killed by a signal: not an exit error, sh.ExitStatus says 1
     return ("" if "--quiet" in args else exe + ": " + " ".join(args) + "\n"), code
 
 
